@@ -12,7 +12,7 @@ func init() { register("C19", propC19) }
 func propC19() *Property {
 	return &Property{
 		ID:      "C19",
-		Decides: "R19.1 on a server session every successful return of Read/Write that can hand over bytes passes the per-user upload/download counter with the returned count (path-sensitive, all return paths incl. the left-over buffer path); R19.2 the per-user counters are registered under the user name of the cipher that authenticated the session; R19.3 the quota gate: the open response is queued only on the quota-OK edge, the refusal edge records statusQuotaExhausted and closes, checkQuota reads this session's policy and the metric group of the same user; R19.4 roll-up: in doRollUp each history record contributes to exactly one sink on every path through the loop body (kept as is / starts a new bucket / added to the open bucket), the open bucket is flushed after the loop, and roll-up writes only into records it allocated itself (records shared with snapshots are never mutated); R19.5 loading a dump adds max(0, stored - current) and never stores the value.; R19.6 every server session is created with its per-user upload/download counters attached (constructor, from the policy's user name; both creation sites pass the authenticated user's policy), so bytes an application writes before the session's first segment is processed are counted and the fields are not written concurrently with Read/Write (finding F8, repaired in /repo 8af67b3)",
+		Decides: "R19.1 on a server session every successful return of Read/Write that can hand over bytes passes the per-user upload/download counter with the returned count (path-sensitive, all return paths incl. the left-over buffer path); R19.2 the per-user counters are registered under the user name of the cipher that authenticated the session; R19.3 the quota gate: the open response is queued only on the quota-OK edge, the refusal edge records statusQuotaExhausted and closes, checkQuota reads this session's policy and the metric group of the same user; R19.4 roll-up: in doRollUp each history record contributes to exactly one sink on every path through the loop body (kept as is / starts a new bucket / added to the open bucket), the open bucket is flushed after the loop, and roll-up writes only into records it allocated itself (records shared with snapshots are never mutated); R19.5 loading a dump adds max(0, stored - current) and never stores the value.; R19.6 every server session is created with its per-user upload/download counters attached (constructor, from the policy's user name; both creation sites pass the authenticated user's policy), so bytes an application writes before the session's first segment is processed are counted and the fields are not written concurrently with Read/Write (finding F8, repaired in /repo 8af67b3); R19.7 RegisterMetric uses the metric group that metricMap returned (LoadOrStore/Load), so concurrent first registrations of a user end in one shared set of counters",
 		NotDecided: "totals over arbitrary timestamp histories, ordering after truncation, window sums, concurrent sessions racing with accounting (F8: the counters are attached by the input goroutine; bytes written before that are not counted — a timing fact), partial multi-chunk writes that fail midway (F10).",
 		Rules: []Rule{
 			{ID: "R19.1", Floor: 2, Text: "Session.Read/Write: server session, counter attached: no successful return with a possibly positive count is reachable without counter.Add(n)", Run: r19_1},
@@ -20,6 +20,7 @@ func propC19() *Property {
 			{ID: "R19.3", Floor: 3, Text: "quota gate in inputData / checkQuota", Run: r19_3},
 			{ID: "R19.4", Floor: 3, Text: "doRollUp linear use, final flush, no mutation of existing records", Run: r19_4},
 			{ID: "R19.6", Floor: 6, Text: "the per-user counters are attached when a server session is created (before Accept can hand it out); other stores are the nil-guarded lazy path; creation sites pass the authenticated user's policy", Run: r19_6},
+			{ID: "R19.7", Floor: 1, Text: "RegisterMetric registers in the group the registry returned, never in one it allocated itself", Run: r19_7},
 			{ID: "R19.5", Floor: 1, Text: "loadCounterFromMetricPB: Add(max(0, src-dst))", Run: r19_5},
 		},
 	}
@@ -663,4 +664,62 @@ func usesPolicyName(sp *ssa.Call, ctor *ssa.Function) bool {
 		}
 	}
 	return found
+}
+
+// r19_7: RegisterMetric hands out the one registered object. The group in
+// which a metric is looked up / stored is the value that metricMap returned
+// (LoadOrStore result or a Load), never a group this call allocated itself:
+// a freshly allocated group used after a lost LoadOrStore race is invisible
+// to the quota check and the dump, so traffic counted there is not counted
+// against the user (seed C19f).
+func r19_7(c *RC) {
+	p := c.P
+	fn := p.Fn("pkg/metrics", "RegisterMetric")
+	if fn == nil {
+		c.Anchor("metrics.RegisterMetric")
+		return
+	}
+	n := 0
+	instrs(fn, func(_ *ssa.BasicBlock, _ int, in ssa.Instruction) {
+		cl, ok := in.(*ssa.Call)
+		if !ok || calleeID(cl) != "(*sync.Map).LoadOrStore" {
+			return
+		}
+		f := fieldOrigin(cl.Call.Args[0])
+		if f == nil || f.Name() != "metrics" {
+			return
+		}
+		// the group: base of &group.metrics
+		fa, ok := cl.Call.Args[0].(*ssa.FieldAddr)
+		if !ok {
+			return
+		}
+		n++
+		var fresh []string
+		canonical := false
+		for _, l := range Leaves(fa.X, nil) {
+			switch x := l.(type) {
+			case *ssa.Alloc:
+				fresh = append(fresh, "a MetricGroup allocated by this call")
+			case *ssa.Extract:
+				if mc, ok := x.Tuple.(*ssa.Call); ok && (calleeID(mc) == "(*sync.Map).LoadOrStore" || calleeID(mc) == "(*sync.Map).Load") {
+					canonical = true
+				}
+			case *ssa.TypeAssert:
+				canonical = true
+			case *ssa.Call:
+				if calleeName(x) == "GetMetricGroupByName" {
+					canonical = true
+				}
+			}
+		}
+		if len(fresh) == 0 && canonical {
+			c.OKH("metric-in-registered-group", in.Pos(), "the metric is registered in the group that the registry returned")
+		} else {
+			c.Bad("metric-in-registered-group", in.Pos(), "RegisterMetric can register a metric in %v instead of the group the registry holds: when two first sessions of a user race, the loser's counters live in an unpublished group that neither the quota check nor the dump reads", fresh)
+		}
+	})
+	if n == 0 {
+		c.Undecided("metric-in-registered-group", fn.Pos(), "no group.metrics.LoadOrStore found in RegisterMetric")
+	}
 }
